@@ -81,7 +81,8 @@ std::optional<ChunkRecord> ChunkStore::get_record(const ChunkId& id) {
     }
 
     if (std::chrono::steady_clock::now() >= it->second.expires_at) {
-        chunks_.erase(it);
+        // Never serve an expired record, but leave it to sweep_expired(): dropping it here would
+        // skip the wipe of its persisted file and hide the expiry from the sweep's caller.
         return std::nullopt;
     }
 
